@@ -476,6 +476,26 @@ RETCODE adfFileFlush ( struct AdfFile * const file )
     }
 
 /*printf("pos=%ld\n",file->pos);*/
+    /* the handle works on a copy of the file header taken when the file was opened; the directory
+       layer may have changed the block on the disk since (an entry of the same hash value linked
+       behind it, a rename, a new comment or protection): take over the fields it owns */
+    {
+        struct bEntryBlock onDisk;
+        rc = adfReadEntryBlock ( file->volume, file->fileHdr->headerKey, &onDisk );
+        if ( rc != RC_OK ) {
+            adfEnv.eFct ( "adfFlushfile : error reading file header block %d",
+                          file->fileHdr->headerKey );
+            return rc;
+        }
+        file->fileHdr->nextSameHash = onDisk.nextSameHash;
+        file->fileHdr->parent       = onDisk.parent;
+        file->fileHdr->access       = onDisk.access;
+        file->fileHdr->nameLen      = onDisk.nameLen;
+        memcpy ( file->fileHdr->fileName, onDisk.name, sizeof(file->fileHdr->fileName) );
+        file->fileHdr->commLen      = onDisk.commLen;
+        memcpy ( file->fileHdr->comment, onDisk.comment, sizeof(file->fileHdr->comment) );
+    }
+
     adfTime2AmigaTime ( adfGiveCurrentTime(),
                         &(file->fileHdr->days),
                         &(file->fileHdr->mins),
